@@ -1,6 +1,6 @@
 //! Reference semantics for regular-expression construction programs and the checks that compare
 //! the crate's answers with it (oracles for C01 C02 C03 C04 C05 C07 C10 C14 C16 C18 C19).
-use super::{fail, guarded, Ctx, Failure, MAXC};
+use super::{fail, guarded, watch, Ctx, Failure, MAXC};
 use aws_smt_strings::automata::Automaton;
 use aws_smt_strings::character_sets::*;
 use aws_smt_strings::regular_expressions::*;
@@ -285,6 +285,7 @@ pub fn c01(ctx: &mut Ctx) -> Option<Failure> {
             break;
         }
         let r = ctx.case(|| {
+            watch(show(&ast));
             let e = match guarded(|| build(&mut m, &ast)) {
                 Ok(e) => e,
                 Err(p) => return fail("constructors", show(&ast), "no panic".into(), p),
@@ -332,6 +333,7 @@ pub fn c03(ctx: &mut Ctx) -> Option<Failure> {
             break;
         }
         let r = ctx.case(|| {
+            watch(show(&ast));
             let e = build(&mut m, &ast);
             for &c in &chars {
                 let d = m.char_derivative(e, c);
@@ -455,6 +457,7 @@ pub fn automata_checks(ctx: &mut Ctx, which: &str) -> Option<Failure> {
             break;
         }
         let r = ctx.case(|| {
+            watch(show(&ast));
             let e = build(&mut m, &ast);
             // the iterator yields &'a RE tied to the manager borrow; the terms themselves are 'static
             let derivs: Vec<RegLan> = m.iter_derivatives(e).map(|x| x as *const RE).collect::<Vec<_>>().into_iter().map(|p| unsafe { &*p }).collect();
@@ -602,6 +605,7 @@ pub fn c05(ctx: &mut Ctx) -> Option<Failure> {
             break;
         }
         let r = ctx.case(|| {
+            watch(show(&ast));
             let e = build(&mut m, &ast);
             let empty = m.is_empty_re(e);
             let wit = ws.iter().find(|w| matches(&ast, w));
@@ -648,6 +652,7 @@ pub fn c18(ctx: &mut Ctx) -> Option<Failure> {
             break;
         }
         let r = ctx.case(|| {
+            watch(show(&ast));
             let e = build(&mut m, &ast);
             for c in [0u32, A, A + 1, A + 2, A + 3, MAXC] {
                 let got = m.start_char(e, c);
@@ -774,6 +779,7 @@ pub fn c10(ctx: &mut Ctx) -> Option<Failure> {
                             o
                         }
                     };
+                    watch(format!("str_replace_re {} s={:?} t={:?}", show(&ast), s, t));
                     let got = sre::str_replace_re(&sm(s), e, &sm(t));
                     if got.as_ref() != &exp[..] {
                         return fail("str_replace_re", format!("{} s={:?} t={:?}", show(&ast), s, t), format!("{:?}", exp), format!("{:?}", got.as_ref()));
@@ -787,6 +793,7 @@ pub fn c10(ctx: &mut Ctx) -> Option<Failure> {
                         k = j;
                     }
                     o.extend_from_slice(&s[k..]);
+                    watch(format!("str_replace_re_all {} s={:?} t={:?}", show(&ast), s, t));
                     let got = sre::str_replace_re_all(&sm(s), e, &sm(t));
                     if got.as_ref() != &o[..] {
                         return fail("str_replace_re_all", format!("{} s={:?} t={:?}", show(&ast), s, t), format!("{:?}", o), format!("{:?}", got.as_ref()));
